@@ -17,8 +17,7 @@ def main():
     meta = json.load(open(os.path.join(d, "meta.json")))
     props = sys.argv[2:] or [meta["property"]]
     import fcntl
-    os.makedirs(os.path.join(VERIF, ".cache"), exist_ok=True)
-    lk = open(os.path.join(VERIF, ".cache", "tree.lock"), "a")
+    lk = open("/tmp/.verif_tree_lock", "a")
     fcntl.flock(lk, fcntl.LOCK_EX)
     os.environ["VERIF_TREE_LOCKED"] = "1"
     st = sh(["git", "-C", REPO, "status", "--porcelain", "--untracked-files=no"]).stdout.decode()
